@@ -126,4 +126,32 @@ theorem f14_pinned_undisciplined : disciplined (f14Trace.foldl stepPinned {}) = 
 
 theorem f14_repaired_disciplined : disciplined (run {} f14Trace) = true := by decide
 
+/-! ### Finding F13 (known, not repaired) as a statement about the model -/
+
+/-- peer 0, one connection. The first wantlist of the session is handed to it; its task does not run
+for `RECEIVE_REQUEST_TIMEOUT`; the behaviour gives the connection up and, it being the only one,
+the peer. The task then runs: the handler sends that wantlist and reports; nobody listens. -/
+def f13Trace : List Act :=
+  let okEnv : Env := { timerFired := false, pollReady := .ok, startSendOk := true, flush := .ok }
+  [.connect 0 1, .client (.get 7 true), .drain (fun _ => some 1), .client (.complete 0 .miss),
+   .drain (fun _ => some 1),                          -- full wantlist handed to connection 1
+   .client (.tick 1000), .drain (fun _ => some 1),    -- not acknowledged in time: connection and peer given up
+   .deliverCmd 1, .handler 1 (.poll okEnv), .handler 1 (.poll okEnv), .handler 1 (.setStream 5),
+   .handler 1 (.poll okEnv), .handler 1 (.poll okEnv), .handler 1 (.poll okEnv),
+   .deliverRep 1, .deliverRep 1, .deliverRep 1,       -- RequestReceived, Sending, Ready: ignored
+   .client (.get 8 true), .drain (fun _ => some 1), .client (.complete 1 .miss), .drain (fun _ => some 1)]
+
+/-- Finding F13: a reachable state in which a connection is alive — not closed, not closing, its
+handler `Ready` after a complete transmission — while the behaviour has no entry for its peer: the
+node wants CIDs 7 and 8, and 8 is never announced to the peer although its connection works (C05's
+"the peer keeps receiving updates as long as it has a working connection" fails under a late
+acknowledgement). It heals only when the connection is re-established. -/
+theorem f13_live_connection_given_up :
+    (run {} f13Trace).cl.s.peers.toList.map (·.1) = [] ∧
+    ((run {} f13Trace).links[1]?.map fun l =>
+      (!l.gone && !l.h.closing && decide (l.h.ss = HS.ready) && l.cmds.isEmpty && l.reps.isEmpty)) = some true ∧
+    (run {} f13Trace).cl.s.wantlist.cids.toList = [7, 8] := by decide
+
+theorem f13_reachable : Reachable (run {} f13Trace) := reachable_run {} Reachable.init f13Trace
+
 end Beetswap.Proofs.ClientLink
